@@ -28,13 +28,17 @@ ValidTarget(t) ==
 NilList == [hasBitmap |-> FALSE, postings |-> {}, doc1 |-> -1, norm1 |-> 0, except |-> {}, exNil |-> TRUE, sb |-> 0]
 
 VARIABLES pl,      \* the (possibly reused) list object
+          itr,     \* the (possibly reused) iterator object: [doc1, norm1, consumed, src]
           cur,     \* the target of the last lookup
           via,     \* "prealloc" or "scratch" (dictionary iterator tmp)
-          n, out   \* number of lookups; last observation [count, iter]
-vars == <<pl, cur, via, n, out>>
+          n, out   \* number of lookups; last observation [count, iter, first]
+vars == <<pl, itr, cur, via, n, out>>
 
-Init == pl = NilList /\ cur = [kind |-> "absentTerm", post |-> {}, except |-> {}, exNil |-> TRUE]
-        /\ via = "prealloc" /\ n = 0 /\ out = [count |-> 0, iter |-> "empty"]
+\* PostingsIterator fields that matter across reuse: the 1-hit cursor and which list it walks
+NilIter == [doc1 |-> -1, norm1 |-> 0, consumed |-> FALSE, src |-> {}]
+
+Init == itr = NilIter /\ pl = NilList /\ cur = [kind |-> "absentTerm", post |-> {}, except |-> {}, exNil |-> TRUE]
+        /\ via = "prealloc" /\ n = 0 /\ out = [count |-> 0, iter |-> "empty", first |-> -1]
 
 \* postingsListInit(rv, except): keep the bitmap allocation (cleared), clear everything else
 ListInit(l, t) ==
@@ -61,25 +65,48 @@ IterKind(l) ==
     ELSE IF l.sb = 0 THEN "crash"                 \* newChunkedIntDecoder(p.sb.data, ...) with a nil segment
     ELSE "general"
 
+\* PostingsList.Iterator(..., prealloc) followed by one Next(): returns <<iterator object after, first doc or -1>>
+\* (advance = FALSE models a caller that opens the iterator but does not consume it yet)
+OpenAndNext(l, pre, advance) ==
+    LET kind == IterKind(l) IN
+    IF kind = "empty"
+    THEN IF "DrainPrealloc" \in Dev /\ pre # NilIter
+         THEN \* hands the caller's own iterator back with its bitmaps dropped - but not its 1-hit cursor
+              LET i == [pre EXCEPT !.src = {}] IN
+              <<IF advance THEN [i EXCEPT !.consumed = TRUE] ELSE i,
+                IF i.norm1 # 0 /\ ~i.consumed THEN i.doc1 ELSE -1>>
+         ELSE <<NilIter, -1>>                                   \* the shared emptyPostingsIterator
+    ELSE IF kind = "onehit"
+    THEN LET excluded == ~l.exNil /\ l.doc1 \in l.except IN      \* *rv = PostingsIterator{}; then the 1-hit fields
+         <<[doc1 |-> l.doc1, norm1 |-> l.norm1, consumed |-> advance \/ excluded, src |-> {}],
+           IF excluded THEN -1 ELSE l.doc1>>
+    ELSE IF kind = "general"
+    THEN LET a == l.postings \ l.except IN
+         <<[doc1 |-> -1, norm1 |-> 0, consumed |-> FALSE, src |-> a],
+           IF a = {} THEN -1 ELSE CHOOSE d \in a : \A x \in a : d <= x>>
+    ELSE <<pre, -1>>                                            \* crash (reported by NoCrash)
+
 \* Dictionary.PostingsList(term, except, prealloc)
-Lookup(t, reuse) ==
+Lookup(t, reuse, reuseIt, advance) ==
     /\ n < MaxLookups /\ ValidTarget(t)
     /\ LET base == IF reuse THEN pl ELSE NilList
            fresh == ~reuse
            l == IF t.kind \in {"unknownField", "absentTerm"}
                 THEN (IF fresh THEN NilList ELSE ListInit(base, t))   \* rv == nil: the shared emptyPostingsList
                 ELSE ReadInto(ListInit(base, t), t)
-       IN /\ pl' = l /\ out' = [count |-> Count(l), iter |-> IterKind(l)]
+           r == OpenAndNext(l, IF reuseIt THEN itr ELSE NilIter, advance)
+       IN /\ pl' = l /\ itr' = r[1]
+          /\ out' = [count |-> Count(l), iter |-> IterKind(l), first |-> r[2]]
     /\ cur' = t /\ via' = "prealloc" /\ n' = n + 1
 
 \* DictionaryIterator.Next: i.tmp.read(offset) on the scratch list, no init
 ScratchRead(t) ==
     /\ n < MaxLookups /\ ValidTarget(t) /\ t.kind \in {"onehit", "general"} /\ t.exNil
     /\ LET l == ReadInto([pl EXCEPT !.except = {}, !.exNil = TRUE], t) IN
-       /\ pl' = l /\ out' = [count |-> Count(l), iter |-> "n/a"]
+       /\ pl' = l /\ out' = [count |-> Count(l), iter |-> "n/a", first |-> -2] /\ UNCHANGED itr
     /\ cur' = t /\ via' = "scratch" /\ n' = n + 1
 
-Next == \E t \in Targets : (\E r \in BOOLEAN : Lookup(t, r)) \/ ScratchRead(t)
+Next == \E t \in Targets : (\E r, ri, adv \in BOOLEAN : Lookup(t, r, ri, adv)) \/ ScratchRead(t)
 Spec == Init /\ [][Next]_vars
 
 \* Level A: what a fresh lookup yields
@@ -89,5 +116,8 @@ ExpIter == IF cur.kind = "onehit" THEN "onehit" ELSE IF cur.kind = "general" THE
 CountRight == n > 0 => out.count = ExpCount
 IterRight == (n > 0 /\ via = "prealloc") => out.iter = ExpIter
 NoCrash == out.iter # "crash"
+\* the first posting the (possibly reused) iterator returns is the first non-excluded posting of the list
+FirstRight == (n > 0 /\ via = "prealloc" /\ out.iter # "crash") =>
+                  out.first = (LET a == cur.post \ cur.except IN IF a = {} THEN -1 ELSE CHOOSE d \in a : \A x \in a : d <= x)
 
 =============================================================================
